@@ -56,7 +56,10 @@ func (i IntSchema) Units() *UnitsDefinition {
 func (i IntSchema) Unserialize(data any) (any, error) {
 	unserialized, err := intInputMapper(data, i.UnitsValue)
 	if err != nil {
-		return 0, err
+		return 0, &ConstraintError{
+			Message: fmt.Sprintf("'%v' (type %T) is not a valid integer", data, data),
+			Cause:   err,
+		}
 	}
 	return unserialized, i.Validate(unserialized)
 }
